@@ -37,7 +37,8 @@ static std::string wordText(uint64_t w) {
 // imm32 boundary sets
 static std::vector<uint32_t> immSet(bool thorough) {
 	std::vector<uint32_t> q = { 0, 1, 2, 3, 13, 31, 32, 33, 63, 64, 0x7FF, 0x800, 0xFFF, 0x1000, 0x1FFF, 0x2000, 0x3FF8, 0x1F7FF, 0x1F800, 0x1FFFF, 0x20000, 0x3FFF8, 0x1FFFF8,
-		16384, 262144, 2097144, 2097152, 0x7FFFF7FF, 0x7FFFF800, 0x7FFFFFFF, 0x80000000u, 0x80000001u, 0xFFFFF7FFu, 0xFFFFF800u, 0xFFFE0000u, 0xFFFFFFC0u, 0xFFFFFFFEu, 0xFFFFFFFFu, 0x12345678, 0xDEADBEEFu, 0x55555555 };
+		16384, 262144, 2097144, 2097152, 0x7FFFF7FF, 0x7FFFF800, 0x7FFFFFFF, 0x80000000u, 0x80000001u, 0xFFFFF7FFu, 0xFFFFF800u, 0xFFFE0000u, 0xFFFFFFC0u, 0xFFFFFFFEu, 0xFFFFFFFFu, 0x12345678, 0xDEADBEEFu, 0x55555555,
+		0x1F, 0x20, 0xFFFFFFE0u, 0xFFFFFFDFu, 0x7F, 0x80, 0xFF, 0xFFFFFF80u };   // 6-bit compressed and 8-bit edges (DESIGN.md 8.7)
 	if (thorough) {
 		for (int k = 1; k <= 32; ++k) { uint64_t p = 1ull << k; q.push_back((uint32_t)(p - 1)); q.push_back((uint32_t)p); q.push_back((uint32_t)(p + 1)); }
 		for (int k = 2; k <= 31; ++k) { q.push_back((uint32_t)(0xFFFFFFFFull << k)); q.push_back((uint32_t)((0xFFFFFFFFull << k) - 1)); }   // -2^k, -2^k-1
